@@ -292,6 +292,27 @@ func genCorruptions(r *core.Rand, e *kmodel.Engine) []*corruption {
 			}})
 		break
 	}
+	// the whole back-reference bucket of a dept that has members is gone (absent, not empty)
+	for _, d := range depts {
+		d := d
+		var needles [][]string
+		for _, id := range emps {
+			if cur, _ := m.Ents[kmodel.Emps][id].V["dept"].(string); cur == d {
+				needles = append(needles, []string{"dept", id, d})
+			}
+		}
+		if len(needles) > 0 {
+			add(&corruption{Class: "fk-missing-backref-bucket", Desc: fmt.Sprintf("delete the whole depts[%q].members bucket (%d members)", d, len(needles)), Needles: needles,
+				apply: func(tx *bbolt.Tx) error {
+					b := bpath(tx, "stores", "depts", d)
+					if b == nil || b.Bucket([]byte("members")) == nil {
+						return nil
+					}
+					return b.DeleteBucket([]byte("members"))
+				}})
+			break
+		}
+	}
 	for _, d := range depts {
 		d := d
 		var fdNeedles [][]string
@@ -368,7 +389,7 @@ func init() {
 		ID:    "C09",
 		Level: "exploration",
 		Rule: "consistent states reached through the API (random histories over schema K) must produce zero reports in check-only mode (read-only and writable transaction) and in fix mode; then a committed raw-write transaction injects a random subset (1-6) of " +
-			"corruptions from 22 classes (unique index missing / dangling / wrong-target / stale entry; set index missing entry / missing value key / dangling / non-holder entry / empty bucket; fk missing / dangling / non-matching back-reference, dangling reference nullable or not; " +
+			"corruptions from 23 classes (unique index missing / dangling / wrong-target / stale entry; set index missing entry / missing value key / dangling / non-holder entry / empty bucket; fk missing back-reference (one key, or the whole bucket absent) / dangling / non-matching back-reference, dangling reference nullable or not; " +
 			"links one-sided either side / dangling; duplicate unique values; null in a non-nullable unique field, fk-index field and fk-constraint field in three stored spellings). Oracle: every injected inconsistency is covered by a report naming its value and id(s), in View and Update check-only runs, which leave the whole-file dump unchanged and do not panic or fail; " +
 			"one fix pass then leaves only the predicted unfixable reports on re-check and (when none is unfixable) a structural-monitor-clean database equal to the model. non-trivial = distinct corruption-class subsets of size >= 2",
 		Assumptions: []string{"report matching is by mention of the index/field name, value and ids (wording not judged); extra reports on a corrupted database are not judged", "ref-counted link collections are not part of CheckIntegrity (not injected)"},
@@ -382,7 +403,7 @@ func init() {
 		Promises: func(core.Tier) map[string][]string {
 			return map[string][]string{"class": {"unique-missing", "unique-wrong-target", "unique-stale-value", "unique-dangling-entry", "set-missing-entry", "set-missing-value-key", "set-extra-entry-dangling",
 				"set-extra-entry-existing", "set-empty-value-bucket", "fk-missing-backref", "fk-extra-backref-dangling", "fk-extra-backref-nonmatching", "fk-dangling-dept", "fk-dangling-boss",
-				"link-one-sided-emp-side-removed", "link-one-sided-dept-side-removed", "link-dangling", "duplicate-unique-value", "null-in-non-nullable-unique", "null-in-non-nullable-fk-index", "null-in-non-nullable-fk-constraint"}}
+				"link-one-sided-emp-side-removed", "link-one-sided-dept-side-removed", "link-dangling", "duplicate-unique-value", "null-in-non-nullable-unique", "null-in-non-nullable-fk-index", "null-in-non-nullable-fk-constraint", "fk-missing-backref-bucket"}}
 		},
 		MinCounters: func(core.Tier) map[string]int64 {
 			return map[string]int64{"consistent_states_checked": 300, "corrupted_states": 300, "fix_converged_clean": 100}
@@ -647,7 +668,7 @@ func family(class string) string {
 	switch class {
 	case "unique-missing", "unique-wrong-target", "null-in-non-nullable-unique", "duplicate-unique-value":
 		return "name"
-	case "fk-missing-backref", "fk-dangling-dept", "fk-extra-backref-nonmatching", "null-in-non-nullable-fk-index":
+	case "fk-missing-backref", "fk-dangling-dept", "fk-extra-backref-nonmatching", "null-in-non-nullable-fk-index", "fk-missing-backref-bucket", "fk-extra-backref-dangling":
 		return "dept"
 	case "fk-dangling-boss", "null-in-non-nullable-fk-constraint":
 		return "boss"
